@@ -170,6 +170,7 @@ func (f *frame) get(v ssa.Value) Val {
 		x := c.constVal(vv)
 		return x
 	case *ssa.Global:
+		c.seeGlobal(vv)
 		return Val{num(c.eng.globalRef(vv))}
 	case *ssa.Function:
 		return Val{num(c.eng.funcRef(vv))}
